@@ -60,7 +60,10 @@ def gen_desc(seed, tier):
     if rf.random() < 0.15 and shape != "invalid":
         raise_faults = [{"kind": "objective_raise", "at": rf.randrange(1, 1 + 4 * n * m * 3),
                          "exc": rf.choice(faults_mod.EXC_TYPES + ["RuntimeError"])}]
+    rsc = random.Random(H(seed, "c20-same-class"))
+    same = {"algos": n > 1 and rsc.random() < 0.15, "tasks": m > 1 and rsc.random() < 0.15}
     return {
+        "same_class": same,
         "raise_faults": raise_faults,
         "kind": "C20", "seed": seed, "n": n, "m": m, "shape": shape, "modes": modes,
         "n_trials": r.choice([1, 2, 2, 3]), "n_jobs": r.choice([1, 2, 3, 4]), "n_workers": r.choice([None, 1, 2, 3]),
@@ -108,9 +111,15 @@ def execute(desc):
             out.append({"cls": [kind], "msg": msg})
 
     n, m = desc["n"], desc["m"]
-    algos = tuple(cl[ALGOS[i]](cl["TunableConfig"](population_size=2, max_cycles=1, a=float(i), b=0.0, c=i))
+    same = desc.get("same_class") or {}
+    # (two algorithms may be instances of ONE optimizer class with different configurations, two tasks instances of ONE
+    #  task class with different data: the recorder identifies them by index, not by class name)
+    acls = [ALGOS[0] if same.get("algos") else ALGOS[i] for i in range(n)]
+    tcls = [TASKS[0] if same.get("tasks") else TASKS[j] for j in range(m)]
+    algos = tuple(cl[acls[i]](cl["TunableConfig"](population_size=2, max_cycles=1, a=float(i), b=0.0, c=i))
                   for i in range(n))
-    tsk = tuple(tasks.build_task(dict(IDENTITY_TASK, cls=TASKS[j], minmax="min")) for j in range(m))
+    tsk = tuple(tasks.build_task(dict(IDENTITY_TASK, cls=tcls[j], minmax="min",
+                                      objective=dict(IDENTITY_TASK["objective"], tag=j))) for j in range(m))
     modes = tuple(desc["modes"]) if desc["modes"] is not None else None
     invalid = desc["modes"] is not None and any(x not in MODES for x in desc["modes"])
     sim = kernel.Sim(desc["seed"], sched=desc.get("sched"), step_cap=4_000_000)
@@ -220,10 +229,10 @@ def execute(desc):
         readings = designated(desc)
         got = {}
         for r in runs:
-            got.setdefault((r["algorithm"], r["task"]), []).append(r)
-        if readings and not any(all(all(r["mode"] == rd[i][j] for r in got.get((ALGOS[i], TASKS[j]), []))
+            got.setdefault((r.get("algo_index"), r.get("task_index")), []).append(r)
+        if readings and not any(all(all(r["mode"] == rd[i][j] for r in got.get((i, j), []))
                                     for i in range(n) for j in range(m)) for rd in readings):
-            seen = {f"{ALGOS[i]}x{TASKS[j]}": sorted({r["mode"] for r in got.get((ALGOS[i], TASKS[j]), [])})
+            seen = {f"{acls[i]}[{i}]x{tcls[j]}[{j}]": sorted({r["mode"] for r in got.get((i, j), [])})
                     for i in range(n) for j in range(m)}
             add("wrong_mode", f"modes={desc['modes']} ({desc['shape']}, n={n}, m={m}); after objective evaluation "
                               f"#{desc['raise_faults'][0]['at']} failed with {desc['raise_faults'][0].get('exc')} the pairs "
@@ -240,23 +249,24 @@ def execute(desc):
     readings = designated(desc)
     got = {}
     for r in runs:
-        got.setdefault((r["algorithm"], r["task"]), []).append(r)
+        got.setdefault((r.get("algo_index"), r.get("task_index")), []).append(r)
     for i in range(n):
         for j in range(m):
-            rs = got.get((ALGOS[i], TASKS[j]), [])
+            rs = got.get((i, j), [])
             if len(rs) == 0:
-                add("pair_missing", f"({ALGOS[i]}, {TASKS[j]}) was never run")
+                add("pair_missing", f"(algorithm #{i} {acls[i]}, task #{j} {tcls[j]}) was never run")
             elif len(rs) != desc["n_trials"]:
-                add("trial_count", f"({ALGOS[i]}, {TASKS[j]}) ran {len(rs)} time(s), n_trials={desc['n_trials']}")
-    extra = [k for k in got if k[0] not in ALGOS[:n] or k[1] not in TASKS[:m]]
+                add("trial_count", f"(algorithm #{i} {acls[i]}, task #{j} {tcls[j]}) ran {len(rs)} time(s), "
+                                   f"n_trials={desc['n_trials']}")
+    extra = [k for k in got if k[0] not in range(n) or k[1] not in range(m)]
     if extra:
         add("pair_unknown", f"runs for pairs that were not requested: {extra}")
     ok_reading = False
     for rd in readings:
-        if all(all(r["mode"] == rd[i][j] for r in got.get((ALGOS[i], TASKS[j]), [])) for i in range(n) for j in range(m)):
+        if all(all(r["mode"] == rd[i][j] for r in got.get((i, j), [])) for i in range(n) for j in range(m)):
             ok_reading = True
     if not ok_reading:
-        seen = {f"{ALGOS[i]}x{TASKS[j]}": sorted({r["mode"] for r in got.get((ALGOS[i], TASKS[j]), [])})
+        seen = {f"{acls[i]}[{i}]x{tcls[j]}[{j}]": sorted({r["mode"] for r in got.get((i, j), [])})
                 for i in range(n) for j in range(m)}
         add("wrong_mode", f"modes={desc['modes']} ({desc['shape']}, n={n}, m={m}) but the pairs ran as {seen}")
     if desc["n_workers"] is not None:
@@ -267,16 +277,18 @@ def execute(desc):
         add("table_shape", f"{None if tables is None else len(tables)} result tables for {n} algorithms")
     else:
         for i, (cols, nrows) in enumerate(tables):
-            want_cols = [f"{ALGOS[i]}_{TASKS[j]}" for j in range(m)]
-            if sorted(cols) != sorted(want_cols) or nrows != desc["n_trials"]:
-                add("table_shape", f"table of {ALGOS[i]} has columns {cols} and {nrows} rows; expected one column per "
-                                   f"task {want_cols} and {desc['n_trials']} rows")
+            want_cols = [f"{acls[i]}_{tcls[j]}" for j in range(m)]
+            # (when two tasks share a class the statement still promises a column per task; their labels are not specified)
+            cols_ok = sorted(cols) == sorted(want_cols) if len(set(want_cols)) == m else len(set(cols)) == m
+            if not cols_ok or nrows != desc["n_trials"]:
+                add("table_shape", f"table of algorithm #{i} ({acls[i]}) has columns {cols} and {nrows} rows; expected "
+                                   f"one column per task ({m} tasks: {tcls}) and {desc['n_trials']} rows")
                 break
         # "a row per trial": row k of every column holds trial k
         for i, cols in enumerate(trial_ids or []):
             for c, ids in cols.items():
                 if ids != list(range(1, desc["n_trials"] + 1)):
-                    add("table_rows", f"column {c} of the table of {ALGOS[i]} holds trials {ids} in its rows; row k must "
+                    add("table_rows", f"column {c} of the table of {acls[i]} holds trials {ids} in its rows; row k must "
                                       f"hold trial k (1..{desc['n_trials']})")
                     break
     # -- export
@@ -286,14 +298,16 @@ def execute(desc):
     else:
         base = desc["save_path"] if desc["save_path"] is not None else "multitask"
         ext = {"csv": ".csv", "json": ".json", "dataframe": ".pkl"}[desc["export"]]
-        for i in range(n):
-            d = os.path.normpath(os.path.join(base, ALGOS[i]))
+        for name in sorted(set(acls)):
+            d = os.path.normpath(os.path.join(base, name))
             mine = [f for f in files if os.path.normpath(os.path.dirname(f)) == d]
-            if not mine or not all(f.endswith(ext) for f in mine):
-                add("export_path", f"no {ext} file directly under {d}/ for {ALGOS[i]}; files written: {sorted(files)}")
+            need = acls.count(name)          # one file per algorithm, also when two algorithms share a class (and a folder)
+            if len(mine) < need or not all(f.endswith(ext) for f in mine):
+                add("export_path", f"{len(mine)} {ext} file(s) directly under {d}/ for {need} algorithm(s) named {name}; "
+                                   f"files written: {sorted(files)}")
                 break
         stray = [f for f in files if not any(os.path.normpath(os.path.dirname(f)) ==
-                                             os.path.normpath(os.path.join(base, ALGOS[i])) for i in range(n))]
+                                             os.path.normpath(os.path.join(base, acls[i])) for i in range(n))]
         if stray:
             add("export_path", f"files outside <save_path>/<algorithm name>/: {sorted(stray)}")
     return out, stats
